@@ -36,3 +36,39 @@ def replay_record(path, module):
         print("VIOLATION property=%s replay=%s" % (rp["property"], path))
         raise SystemExit(1)
     raise SystemExit(0)
+
+
+def env_runs(out, mode, envs, args, module="Trace_Env", parallel=16, chunk=30000, label=None):
+    """One driver process per environment (explicit, nothing inherited); chunks are judged with the
+    environment handed to the validator through PENV."""
+    from concurrent.futures import ThreadPoolExecutor
+    vlib.build("envprobe")
+    d = sub("env-" + mode)
+    penv = {}
+
+    def one(i):
+        e = envs[i]
+        od = os.path.join(d, "e%03d" % i)
+        os.makedirs(od, exist_ok=True)
+        pe = os.path.join(od, "penv.json")
+        with open(pe, "w") as fh:
+            json.dump(dict(vars=[dict(n=list(k), v=list(v)) for k, v in sorted(e.items())] or [dict(n=list("__NONE__"), v=[])]), fh)
+        files = vlib.run_workers("envprobe", ["--mode", mode] + list(args) + ["--sandbox", os.path.join(od, "sb")], 1, od, "e%03d" % i, env=e, clean_env=True)
+        chunks = vlib.split_chunks(files, od, "e%03d" % i, chunk)
+        for c in chunks:
+            penv[c] = pe
+        return chunks
+
+    allchunks = []
+    try:
+        with ThreadPoolExecutor(max_workers=parallel) as ex:
+            for cs in ex.map(one, range(len(envs))):
+                allchunks += cs
+    except Stall as s:
+        vlib.stall_violation(out, s, "envprobe:" + mode)
+        return
+    checked, classes = vlib.tlc_validate(module, allchunks, extra_env=lambda c: dict(PENV=penv[c]))
+    out.absorb(module, checked, classes, label=label or mode)
+    if allchunks:
+        out.sample_from(allchunks[len(allchunks) // 2], (3, 700, 9000))
+    out.cov["environments"] = out.cov.get("environments", 0) + len(envs)
